@@ -90,6 +90,9 @@ func (g *Generator) validateRequest(req *plugin.Request) error {
 }
 
 func (g *Generator) preparePlugins(be backend.Backend, pds []*plugin.Desc) error {
+	// Generate runs once per target language on the same Generator: start from an empty list,
+	// otherwise g.plugins[i] no longer corresponds to out.UsedPlugins[i] for the second target.
+	g.plugins = g.plugins[:0]
 	for _, d := range pds {
 		// TODO(lushaojie): check d
 
